@@ -664,5 +664,90 @@ pub fn run(tier: &str, seed: u64, only: Option<&str>) -> Run {
             }
         }
     }
+    // 4. the remaining arms (accuracy given, but too many hit results provided for a search): the
+    //    inventory says their state does not depend on the accuracy's value
+    //    (`*_acc_value_irrelevant`); measured per arm, tied to the model by `GS` lines
+    for mode in if deep { vec![] } else { vec![OSU, TAIKO, CATCH, MANIA] } {
+        let nf = N_FIELDS[mode as usize];
+        let hit: Vec<usize> = if mode == CATCH { vec![3, 4] } else { HIT_IDX[mode as usize].to_vec() };
+        let origins: &[u8] = match mode {
+            OSU => &[0, 2, 3],
+            MANIA => &[0, 2],
+            _ => &[1],
+        };
+        for bits in 0u32..(1 << hit.len()) {
+            let n_given = bits.count_ones() as usize;
+            let search = match mode {
+                OSU => n_given <= 1,
+                TAIKO => n_given == 0,
+                CATCH => n_given == 0,
+                _ => hit.len() - n_given >= 2,
+            };
+            if search {
+                continue;
+            }
+            for &origin in origins {
+                for rep in 0..(if thorough { 40 } else { 10 }) {
+                    let attrs = match mode {
+                        OSU => {
+                            let no = 1 + rng.below(8) as u32;
+                            let ns = rng.below(u64::from(no.min(3)) + 1) as u32;
+                            let nlt = if ns == 0 { 0 } else { rng.below(3) as u32 };
+                            [no + ns + nlt, no, ns, nlt]
+                        }
+                        TAIKO => [1 + rng.below(12) as u32, 0, 0, 0],
+                        CATCH => [rng.below(5) as u32, rng.below(4) as u32, 1 + rng.below(6) as u32, 0],
+                        _ => {
+                            let no = 1 + rng.below(8) as u32;
+                            [no, rng.below(u64::from(no.min(3)) + 1) as u32, 0, 0]
+                        }
+                    };
+                    let probe = Case { mode, attrs, spinners: 0, passed: None, origin, worst: false, acc: Some(0.0), fields: vec![None; nf] };
+                    let d = derived_of(&probe);
+                    let (cap, j) = judgements(&probe, d);
+                    let mo = if rep % 2 == 0 { None } else { Some(rng.below(u64::from(cap) + 1) as u32) };
+                    let r = if mode == CATCH { attrs[2] } else { j - mo.unwrap_or(0) };
+                    let mut fields = vec![None; nf];
+                    fields[MISS_IDX[mode as usize]] = mo;
+                    let mut left = r;
+                    let n_set = bits.count_ones();
+                    let mut seen = 0;
+                    for (gi, &i) in hit.iter().enumerate() {
+                        if bits >> gi & 1 == 1 {
+                            seen += 1;
+                            // catch: a consistent pair (the inconsistent one is a search arm, section 3)
+                            let v = if mode == CATCH && n_set == 2 && seen == 2 { left } else { rng.below(u64::from(left) + 1) as u32 };
+                            left -= v;
+                            fields[i] = Some(v);
+                        }
+                    }
+                    let worst = mode != CATCH && rng.chance(1, 2);
+                    let mut states = Vec::new();
+                    for acc in [12.5, 97.3] {
+                        let c = Case { mode, attrs, spinners: 0, passed: None, origin, worst, acc: Some(acc), fields: fields.clone() };
+                        cx.counter[mode as usize] += 1;
+                        let id = format!("{}{}", &MODE_NAMES[mode as usize][..1], cx.counter[mode as usize]);
+                        if only.is_some_and(|o| o != id) {
+                            continue;
+                        }
+                        let o = observe(&c, false);
+                        cx.run.eval(Some(request_line(&c, d).as_str()));
+                        cx.run.count("gen:non-search-arms");
+                        corr_line(&mut cx.run, &id, &c, d, &o);
+                        states.push((arm_of(&c, d), o.s1.clone()));
+                    }
+                    if let [(arm, a), (_, b)] = &states[..] {
+                        if a == b {
+                            cx.run.count(&format!("{arm}: not accuracy-driven (same state for two accuracies)"));
+                        } else {
+                            let key = format!("{arm}: state DEPENDS on the accuracy (inventory stale)");
+                            cx.run.notes.push(format!("{key}: {a:?} vs {b:?}"));
+                            cx.run.count(&key);
+                        }
+                    }
+                }
+            }
+        }
+    }
     cx.run
 }
